@@ -159,6 +159,11 @@ class BundleFlattener(ElabPass):
             for conn in inst.conns.values():
                 collect_live(conn)
 
+        # Likewise the Instances connected to our Bundles: those of this Module only.
+        # An Instance which never became part of it - or was since replaced under its name - remains among
+        # the back-references of whatever it was connected to.
+        self.module_insts = {id(inst) for inst in instances_and_arrays(module)}
+
         # Cache the state of the Module's IOs before flattening
         module._pre_flattening_io = copy.copy(io(module))
 
@@ -215,6 +220,8 @@ class BundleFlattener(ElabPass):
 
         # Replace connections to any connected instances
         for portref in list(bundle_inst._connected_ports):
+            if id(portref.inst) not in self.module_insts:
+                continue
             self.replace_bundle_conn(
                 inst=portref.inst, portname=portref.portname, flat=flat
             )
@@ -465,6 +472,8 @@ class BundleFlattener(ElabPass):
 
         if isinstance(resolved, BundleScope):
             for connected_port in list(bref._connected_ports):
+                if id(connected_port.inst) not in self.module_insts:
+                    continue
                 self.replace_bundle_conn(
                     inst=connected_port.inst,
                     portname=connected_port.portname,
